@@ -92,7 +92,7 @@ func c09Other(g *GenCfg, r *RNG, goType, field string) interface{} {
 
 func init() {
 	campaigns["C09"] = func(c *Ctx) {
-		c.Rule = "items generated type-directed over the whole vocabulary (all 14 structs, by pointer and by value, IRIs, links, item lists and IRI lists, id-less embedded objects, 1-3 language values incl. repeated language references, nesting depth <= 2): (1) every item against itself (two independently built copies) -> true; (2) every nil kind against every nil kind -> true, and against non-nil items in both orders -> false; (3) a copy with a different id (host, path or query) or a type differing in more than case -> false, a type differing only in case -> true; (4) for every property of the object core other than media type and source, and actor/object/target/result/origin/instrument of activities: a copy with that property changed to a different value (both orders -> false) or removed / added (the order whose second argument carries the value -> false); (4b) systematically, on minimal values: every struct x every type name of its family (incl. the generic names Object, Activity, Actor, ...) x every listed property, changed and one-sided, a quarter of them with the type name in lower case and a quarter in upper case on both sides; (5) IRI vs object of the same id, value vs pointer, random unrelated pairs: correspondence only."
+		c.Rule = "items generated type-directed over the whole vocabulary (all 14 structs, by pointer and by value, IRIs, links, item lists and IRI lists, id-less embedded objects, 1-3 language values incl. repeated language references, nesting depth <= 2): (1) every item against itself (two independently built copies) -> true, also with a list that names one thing twice (same IRI, IRI next to the object of that id, an id-less object twice); (2) every nil kind against every nil kind -> true, and against non-nil items in both orders -> false; (3) a copy with a different id (host, path or query) or a type differing in more than case -> false, a type differing only in case -> true; (4) for every property of the object core other than media type and source, and actor/object/target/result/origin/instrument of activities: a copy with that property changed to a different value (both orders -> false) or removed / added (the order whose second argument carries the value -> false); (4b) systematically, on minimal values: every struct x every type name of its family (incl. the generic names Object, Activity, Actor, ...) x every listed property, changed and one-sided, a quarter of them with the type name in lower case and a quarter in upper case on both sides; (5) IRI vs object of the same id, value vs pointer, random unrelated pairs: correspondence only."
 		cfg := &GenCfg{MaxDepth: 2, Density: 18, ValueNodes: true, Links: true, EmptyTypes: true, MultiLang: true, RepeatLang: true, Zones: true}
 		n := c.N(700, 15000)
 		for i := 0; i < n; i++ {
@@ -114,6 +114,51 @@ func init() {
 				x = T{"iris": l}
 			}
 			c09Emit(c, c09Case{A: x, B: cloneTree(x), Want: "true", Why: "reflexive/" + goType})
+			// … and with a list that names one thing twice (the same IRI, an IRI next to the object of that id, an
+			// id-less object twice): lists built by hand or decoded by other software are not de-duplicated
+			if i%3 == 0 {
+				dup := func(l []interface{}) []interface{} {
+					if len(l) == 0 {
+						id := cfg.nextID("twice")
+						return []interface{}{T{"iri": id}, T{"iri": id}}
+					}
+					m := l[c.R.Intn(len(l))]
+					extra := cloneTree(m)
+					if mt, ok := m.(T); ok && c.R.Bool() {
+						if ft, ok := mt["f"].(T); ok {
+							if idv, ok := ft["ID"].(T); ok {
+								extra = T{"iri": idv["s"]}
+							}
+						}
+					}
+					out := append([]interface{}{}, l...)
+					pos := c.R.Intn(len(out) + 1)
+					out = append(out[:pos], append([]interface{}{extra}, out[pos:]...)...)
+					return out
+				}
+				y := cloneTree(x)
+				done := false
+				if mt, ok := y.(T); ok {
+					if l, ok := mt["items"]; ok {
+						mt["items"] = dup(asList(l))
+						done = true
+					} else if ft, ok := mt["f"].(T); ok && goType != "Link" {
+						name := []string{"To", "CC", "Tag", "Attachment", "Audience"}[c.R.Intn(5)]
+						if fieldKind(goType, name) == "items" {
+							lv, _ := ft[name].(T)
+							if lv == nil {
+								lv = T{"list": []interface{}{}}
+							}
+							lv["list"] = dup(asList(lv["list"]))
+							ft[name] = lv
+							done = true
+						}
+					}
+				}
+				if done {
+					c09Emit(c, c09Case{A: y, B: cloneTree(y), Want: "true", Why: "reflexive/repeated-member"})
+				}
+			}
 			for _, nk := range []string{"nil", "*Object", "*Activity", "ItemCollection(nil)"} {
 				nt := dumpItem(mkNil(nk))
 				if i%9 == 0 {
